@@ -745,7 +745,10 @@ func ownNodes(body ast.Node, f func(ast.Node) bool) {
 	})
 }
 
-func c08R3(ic *IC, r *Report) {
+func c08R3(ic *IC, r *Report) { lockPairing(ic, r, "R08.3") }
+
+// lockPairing is the analysis of R08.3, reported under the given rule.
+func lockPairing(ic *IC, r *Report, rule string) {
 	acquire := 0
 	counter := map[string]int{}
 	funcBodies(ic, func(owner string, body *ast.BlockStmt, lit *ast.FuncLit) {
@@ -791,7 +794,7 @@ func c08R3(ic *IC, r *Report) {
 			key := fmt.Sprintf("%s#%d", base, counter[base])
 			pos := ic.pos(l.call.Pos())
 			if deferred[l.recv+"."+want] {
-				r.Pass("R08.3", key, pos, "released by a deferred "+want)
+				r.Pass(rule, key, pos, "released by a deferred "+want)
 				continue
 			}
 			via := func(n ast.Node) bool {
@@ -829,14 +832,14 @@ func c08R3(ic *IC, r *Report) {
 							}
 						}
 						if re != "" {
-							r.Fail("R08.3", key+"/reentrant", ic.pos(c.Pos()), "interpreted code is entered ("+re+") while "+l.recv+" is held: the callee locks frames itself (a closure defined in this function locks this very frame when it returns), so e.g. 'cleanup := func(){...}; defer cleanup()' deadlocks")
+							r.Fail(rule, key+"/reentrant", ic.pos(c.Pos()), "interpreted code is entered ("+re+") while "+l.recv+" is held: the callee locks frames itself (a closure defined in this function locks this very frame when it returns), so e.g. 'cleanup := func(){...}; defer cleanup()' deadlocks")
 						}
 						return true
 					})
 				}
 			}
 			leak, _ := fg.exitsWithout(l.call, via)
-			r.Check(!leak, "R08.3", key, pos, "released by "+l.recv+"."+want+" on every path to an exit",
+			r.Check(!leak, rule, key, pos, "released by "+l.recv+"."+want+" on every path to an exit",
 				"some control-flow path from this "+l.recv+"."+map[bool]string{true: "RLock", false: "Lock"}[l.read]+" reaches a function exit without "+l.recv+"."+want+": the next acquisition deadlocks")
 		}
 	})
